@@ -746,6 +746,237 @@ fn ed_rotation_case<T: Elem, M: Chain<T>>(sub: &mut Sub, cfg: &Config, idx: u64)
     sub.held(h.get(), !trivial_angle);
 }
 
+// ------------------------------------------------------------------ float tier
+
+/// f32 / f64 subject types.  The exact tiers above see every *algebraic* defect; they cannot see one
+/// that exists only in rounding (a translation added and subtracted again, a fast path keyed on an
+/// angle that is exactly a multiple of pi/2 in the type), because an angle token is not a number there.
+trait Fl: Real + MulAdd<Self, Self, Output = Self> + std::fmt::Debug + 'static {
+    const TY: &'static str;
+    const EPS: f64;
+    fn of(x: f64) -> Self;
+    fn f(self) -> f64;
+}
+impl Fl for f32 {
+    const TY: &'static str = "f32";
+    const EPS: f64 = f32::EPSILON as f64;
+    fn of(x: f64) -> f32 { x as f32 }
+    fn f(self) -> f64 { self as f64 }
+}
+impl Fl for f64 {
+    const TY: &'static str = "f64";
+    const EPS: f64 = f64::EPSILON;
+    fn of(x: f64) -> f64 { x }
+    fn f(self) -> f64 { self }
+}
+
+/// the definition of a step on f64 (the same formulas as `apply_step`)
+fn apply_step_f64(st: &Step<f64>, h: &mut [f64]) {
+    let n = h.len();
+    match *st {
+        Step::Translate3(v) => { let w = h[3]; for i in 0..3 { h[i] += v[i] * w; } }
+        Step::Translate2(v) => { let w = if n == 4 { h[3] } else { h[2] }; for i in 0..2 { h[i] += v[i] * w; } }
+        Step::Scale3(s) => { for i in 0..3 { h[i] *= s[i]; } }
+        Step::Scale2(s) => { for i in 0..2 { h[i] *= s[i]; } }
+        Step::RotX(a) => { let (y, z) = (h[1], h[2]); h[1] = a.c * y - a.s * z; h[2] = a.s * y + a.c * z; }
+        Step::RotY(a) => { let (x, z) = (h[0], h[2]); h[2] = a.c * z - a.s * x; h[0] = a.s * z + a.c * x; }
+        Step::RotZ(a) => { let (x, y) = (h[0], h[1]); h[0] = a.c * x - a.s * y; h[1] = a.s * x + a.c * y; }
+        Step::Rot3(a, _, k) => {
+            let p = [h[0], h[1], h[2]];
+            let cross = [k[1] * p[2] - k[2] * p[1], k[2] * p[0] - k[0] * p[2], k[0] * p[1] - k[1] * p[0]];
+            let dot = k[0] * p[0] + k[1] * p[1] + k[2] * p[2];
+            for i in 0..3 { h[i] = p[i] * a.c + cross[i] * a.s + k[i] * dot * (1.0 - a.c); }
+        }
+        Step::ShearX(k) => { h[0] += k * h[1]; }
+        Step::ShearY(k) => { h[1] += k * h[0]; }
+    }
+}
+
+/// an angle as the subject type holds it, with the reference's cos / sin of exactly that value
+fn float_angle<F: Fl>(rng: &mut Rng) -> (F, Ang<f64>) {
+    use std::f64::consts::{FRAC_PI_2, PI};
+    let a = match rng.below(8) {
+        // whole quarter turns *as computed in the subject type*: k * FRAC_PI_2, both signs, beyond a full turn
+        0 | 1 => F::of(rng.range_i64(-9, 9) as f64) * F::of(FRAC_PI_2),
+        2 => F::of(rng.range_i64(-4, 4) as f64 * PI),
+        3 => F::of(rng.f64_in(-1.0, 1.0) * 10f64.powf(rng.f64_in(-9.0, -2.0))),
+        4 => F::of(0.0),
+        _ => F::of(rng.f64_in(-7.0, 7.0)),
+    };
+    let x = a.f();
+    (a, Ang { token: x, c: x.cos(), s: x.sin() })
+}
+
+fn float_step<F: Fl>(k: Kind, rng: &mut Rng) -> (Step<F>, Step<f64>) {
+    let dy = |rng: &mut Rng| rng.range_i64(-32, 32) as f64 / 8.0;
+    let cv = |st: &Step<f64>, tok: F| -> Step<F> {
+        let a = |x: Ang<f64>| Ang { token: tok, c: F::of(x.c), s: F::of(x.s) };
+        match *st {
+            Step::Translate3(v) => Step::Translate3(v.map(F::of)),
+            Step::Translate2(v) => Step::Translate2(v.map(F::of)),
+            Step::Scale3(v) => Step::Scale3(v.map(F::of)),
+            Step::Scale2(v) => Step::Scale2(v.map(F::of)),
+            Step::RotX(x) => Step::RotX(a(x)),
+            Step::RotY(x) => Step::RotY(a(x)),
+            Step::RotZ(x) => Step::RotZ(a(x)),
+            Step::Rot3(x, v, u) => Step::Rot3(a(x), v.map(F::of), u.map(F::of)),
+            Step::ShearX(x) => Step::ShearX(F::of(x)),
+            Step::ShearY(x) => Step::ShearY(F::of(x)),
+        }
+    };
+    let mut tok = F::of(0.0);
+    let r: Step<f64> = match k {
+        Kind::Translate3 => Step::Translate3([dy(rng), dy(rng), dy(rng)]),
+        Kind::Translate2 => Step::Translate2([dy(rng), dy(rng)]),
+        Kind::Scale3 => Step::Scale3([dy(rng), dy(rng), dy(rng)]),
+        Kind::Scale2 => Step::Scale2([dy(rng), dy(rng)]),
+        Kind::RotX | Kind::RotY | Kind::RotZ => {
+            let (t, a) = float_angle::<F>(rng);
+            tok = t;
+            match k { Kind::RotX => Step::RotX(a), Kind::RotY => Step::RotY(a), _ => Step::RotZ(a) }
+        }
+        Kind::Rot3 => {
+            let (t, a) = float_angle::<F>(rng);
+            tok = t;
+            // axis: on a coordinate axis with either sign, in a coordinate plane, or generic; any length
+            let mut v = [dy(rng), dy(rng), dy(rng)];
+            match rng.below(4) {
+                0 => { let j = rng.below(3) as usize; let s = if rng.bool() { 1.0 } else { -1.0 }; v = [0.0; 3]; v[j] = s * 2f64.powi(rng.range_i64(-3, 3) as i32); }
+                1 => { v[rng.below(3) as usize] = 0.0; }
+                _ => {}
+            }
+            if v.iter().all(|x| *x == 0.0) { v[0] = 1.0; }
+            let l = (v[0] * v[0] + v[1] * v[1] + v[2] * v[2]).sqrt();
+            Step::Rot3(a, v, [v[0] / l, v[1] / l, v[2] / l])
+        }
+        Kind::ShearX => Step::ShearX(dy(rng)),
+        Kind::ShearY => Step::ShearY(dy(rng)),
+    };
+    (cv(&r, tok), r)
+}
+
+/// one builder step (returning or in-place) on a float matrix whose translation part may be huge:
+/// result == D * self within 64 eps * sum |D_ik||self_kj| per element, D from the definition in f64
+fn float_builder_case<F: Fl, M: Chain<F>>(sub: &mut Sub, cfg: &Config, idx: u64) {
+    let n = M::N;
+    let name = format!("float_builders/{}/{}", M::NAME, F::TY);
+    let mut rng = Rng::for_case(&name, cfg.case_seed(), idx);
+    let al = alphabet(n);
+    let k = al[(idx % al.len() as u64) as usize];
+    let ip = (idx / al.len() as u64) % 2 == 1;
+    let (st, rf) = float_step::<F>(k, &mut rng);
+    let mut g: Vec<Vec<f64>> = (0..n).map(|_| (0..n).map(|_| rng.range_i64(-32, 32) as f64 / 8.0).collect()).collect();
+    if rng.chance(1, 4) {
+        // far from the origin: the last column scaled by a large power of two
+        let e = 2f64.powi(rng.range_i64(8, if F::EPS > 1e-10 { 18 } else { 40 }) as i32);
+        for row in g.iter_mut().take(n - 1) {
+            row[n - 1] *= e;
+        }
+    }
+    let ty = format!("{}<{}>", M::NAME, F::TY);
+    let api = api_name(M::SIZE, k, if ip { Form::InPlace } else { Form::Returning });
+    let mut h = H64::new();
+    h.s(&name).u(ip as u64).u(k as u64);
+    for r in &g { for x in r { h.f(*x); } }
+    let mut e0 = vec![0.0; n];
+    e0[0] = 1.0;
+    let mut probe = vec![0.3, -0.7, 1.1, 1.0][..n].to_vec();
+    apply_step_f64(&rf, &mut probe);
+    for x in &probe { h.f(*x); }
+    let m: M = M::from_fn(|i, j| F::of(g[i][j]));
+    sub.saw(&api);
+    let r = match guarded(|| m.step(&st, ip)) {
+        Ok(r) => r,
+        Err(e) => {
+            let v = violation(PROP, sub, &api, &ty, "panic", "equals_definition_times_self", format!("self={:?} step={:?}: {}", g, rf, e), cfg.case_seed(), idx);
+            sub.violated(v);
+            return;
+        }
+    };
+    // D = images of the basis vectors under the definition
+    let mut d = vec![vec![0.0f64; n]; n];
+    for j in 0..n {
+        let mut e: Vec<f64> = (0..n).map(|i| (i == j) as i64 as f64).collect();
+        apply_step_f64(&rf, &mut e);
+        for i in 0..n { d[i][j] = e[i]; }
+    }
+    let got = r.to_rows();
+    // the entries of a rotation matrix built in the subject type from cos / sin / 1 - cos carry an
+    // ABSOLUTE error of a few eps each (1 - cos of a tiny angle has no relative accuracy), whatever
+    // their size; the entries of the other steps are the parameters themselves
+    let is_rot = matches!(rf, Step::RotX(_) | Step::RotY(_) | Step::RotZ(_) | Step::Rot3(..));
+    for i in 0..n {
+        for j in 0..n {
+            let (mut exp, mut mag) = (0.0f64, 0.0f64);
+            for kk in 0..n {
+                exp += d[i][kk] * g[kk][j];
+                let rot_block = is_rot && i < 3 && kk < 3;
+                mag += ((d[i][kk]).abs() + if rot_block { 1.0 } else { 0.0 }) * g[kk][j].abs();
+            }
+            let tol = 64.0 * F::EPS * mag + 1e-300;
+            let gv = got[i][j].f();
+            if !((gv - exp).abs() <= tol) {
+                let v = violation(PROP, sub, &api, &ty, "wrong_value", "equals_definition_times_self", format!("self={:?} step={:?}: element ({},{}) is {:?}, (definition matrix * self) has {:?} (tolerance {:e})", g, rf, i, j, gv, exp, tol), cfg.case_seed(), idx);
+                sub.violated(v);
+                return;
+            }
+        }
+    }
+    let trivial = match rf { Step::RotX(a) | Step::RotY(a) | Step::RotZ(a) | Step::Rot3(a, _, _) => a.s == 0.0 && a.c == 1.0, _ => false };
+    sub.sample(|| format!("{} [{}]: self={:?} step={:?}", api, ty, g, rf));
+    sub.held(h.get(), !trivial);
+}
+
+/// mul_point / mul_direction (Mat4) and mul_point_2d / mul_direction_2d (Mat3) on float matrices with a
+/// large translation: a direction is not moved by the translation, so its image is the linear part
+/// applied to it to within 64 eps of the *linear* terms — the size of the translation must not enter
+macro_rules! float_mul_case {
+    ($sub:expr, $cfg:expr, $idx:expr, $F:ty, $M:ident, $n:expr, $Vin:ident, $point:ident, $dir:ident, $size:expr) => {{
+        let n: usize = $n;
+        let name = format!("float_mul/{}/{}", <$M<$F> as MatX<$F>>::NAME, <$F as Fl>::TY);
+        let mut rng = Rng::for_case(&name, $cfg.case_seed(), $idx);
+        let mut g: Vec<Vec<f64>> = (0..n).map(|_| (0..n).map(|_| rng.range_i64(-32, 32) as f64 / 8.0).collect()).collect();
+        // affine: last row (0,..,0,1); translation from modest to huge
+        for j in 0..n { g[n - 1][j] = if j == n - 1 { 1.0 } else { 0.0 }; }
+        let e = match $idx % 4 { 0 => 1.0, 1 => 2f64.powi(10), _ => 2f64.powi(rng.range_i64(12, if <$F as Fl>::EPS > 1e-10 { 30 } else { 60 }) as i32) };
+        for row in g.iter_mut().take(n - 1) { row[n - 1] *= e; }
+        let v: Vec<f64> = (0..n - 1).map(|_| rng.range_i64(-32, 32) as f64 / 8.0).collect();
+        let m: $M<$F> = <$M<$F> as MatX<$F>>::from_fn(|i, j| <$F as Fl>::of(g[i][j]));
+        let mk = |v: &[f64]| { let mut it = v.iter().map(|x| <$F as Fl>::of(*x)); <$Vin<$F> as VecX<$F>>::from_fn(|_| it.next().unwrap()) };
+        let ty = format!("{}<{}>", <$M<$F> as MatX<$F>>::NAME, <$F as Fl>::TY);
+        let (api_p, api_d) = (concat!($size, "::", stringify!($point)), concat!($size, "::", stringify!($dir)));
+        $sub.saw(api_p);
+        $sub.saw(api_d);
+        let mut h = H64::new();
+        h.s(&name);
+        for r in &g { for x in r { h.f(*x); } }
+        for x in &v { h.f(*x); }
+        match guarded(|| (m.$point(mk(&v)).to_vec(), m.$dir(mk(&v)).to_vec())) {
+            Err(e) => { let vio = violation(PROP, $sub, api_p, &ty, "panic", "affine_map_of_a_point_or_direction", format!("m={:?} v={:?}: {}", g, v, e), $cfg.case_seed(), $idx); $sub.violated(vio); }
+            Ok((p, d)) => {
+                let mut bad = None;
+                for i in 0..n - 1 {
+                    let (mut lin, mut mag) = (0.0f64, 0.0f64);
+                    for k in 0..n - 1 { lin += g[i][k] * v[k]; mag += (g[i][k] * v[k]).abs(); }
+                    let (ep, ed) = (lin + g[i][n - 1], lin);
+                    if !((d[i].f() - ed).abs() <= 64.0 * <$F as Fl>::EPS * mag + 1e-300) {
+                        bad = Some((api_d, "direction_not_moved_by_the_translation", format!("component {} of the image of the direction is {:?}, the linear part gives {:?} (translation {:e})", i, d[i].f(), ed, g[i][n - 1])));
+                        break;
+                    }
+                    if !((p[i].f() - ep).abs() <= 64.0 * <$F as Fl>::EPS * (mag + g[i][n - 1].abs()) + 1e-300) {
+                        bad = Some((api_p, "point_is_linear_part_plus_translation", format!("component {} of the image of the point is {:?}, expected {:?}", i, p[i].f(), ep)));
+                        break;
+                    }
+                }
+                match bad {
+                    Some((api, what, msg)) => { let vio = violation(PROP, $sub, api, &ty, "wrong_value", what, format!("m={:?} v={:?}: {}", g, v, msg), $cfg.case_seed(), $idx); $sub.violated(vio); }
+                    None => { $sub.sample(|| format!("{} [{}]: m={:?} v={:?} -> point {:?} direction {:?}", api_p, ty, g, v, p, d)); $sub.held(h.get(), e > 1.0); }
+                }
+            }
+        }
+    }};
+}
+
 // ------------------------------------------------------------------ chains
 
 fn test_vectors<T: Elem>(n: usize, rng: &mut Rng) -> Vec<Vec<T>> {
@@ -1182,6 +1413,41 @@ fn main() {
         let mut s = s;
         s.extra.push(("chain_shapes_enumerated".to_string(), monitors::Json::i(nshapes)));
         s.extra.push(("repetitions_per_shape".to_string(), monitors::Json::i(reps)));
+        rep.push(s);
+    }
+    {
+        let nf = cfg.n(6_000, 600_000);
+        let proto = Sub::new(
+            "float_builders",
+            "f32/f64, Mat4/Mat3/Mat2 in both layouts: one builder step (kind = index mod alphabet, returning / in-place alternating) on a matrix of short dyadics whose last column is, in a quarter of the cases, scaled by 2^8..2^40 (far from the origin); angles as the subject type holds them: k * FRAC_PI_2 computed in the type for k in -9..9 (whole quarter turns of either sign, beyond a full turn), multiples of pi, tiny, 0, uniform in (-7,7); axes on a coordinate axis with either sign / in a coordinate plane / generic, any length; oracle: (definition matrix from f64 cos/sin of exactly that angle) * self in f64, per element within 64 eps * sum (|D_ik| + 1 for the entries of a rotation block, whose error is absolute) |self_kj|; non-trivial = not the zero angle",
+        )
+        .with_floor(nf * 6)
+        .require(&chain_apis.iter().map(|x| x.as_str()).collect::<Vec<_>>());
+        let s = run_cases(&cfg, proto, nf, |s, i| {
+            macro_rules! go { ($F:ident: $($M:ident),+) => {$( float_builder_case::<$F, $M<$F>>(s, &cfg, i); )+} }
+            go!(f32: Rows4, Cols4, Rows3, Cols3, Rows2, Cols2);
+            go!(f64: Rows4, Cols4, Rows3, Cols3, Rows2, Cols2);
+        });
+        rep.push(s);
+    }
+    {
+        let nf = cfg.n(6_000, 600_000);
+        let proto = Sub::new(
+            "float_mul",
+            "f32/f64 affine Mat4 (mul_point, mul_direction) and Mat3 (mul_point_2d, mul_direction_2d) in both layouts with a translation from modest to 2^60 (2^30 for f32) times the linear part: the image of a direction equals the linear part applied to it within 64 eps of the linear terms alone (the translation must not enter the rounding), the image of a point is that plus the translation within 64 eps of all terms; non-trivial = large translation",
+        )
+        .with_floor(nf * 2)
+        .require(&["Mat4::mul_point", "Mat4::mul_direction", "Mat3::mul_point_2d", "Mat3::mul_direction_2d"]);
+        let s = run_cases(&cfg, proto, nf, |s, i| {
+            float_mul_case!(s, &cfg, i, f32, Rows4, 4, Vec3, mul_point, mul_direction, "Mat4");
+            float_mul_case!(s, &cfg, i, f32, Cols4, 4, Vec3, mul_point, mul_direction, "Mat4");
+            float_mul_case!(s, &cfg, i, f64, Rows4, 4, Vec3, mul_point, mul_direction, "Mat4");
+            float_mul_case!(s, &cfg, i, f64, Cols4, 4, Vec3, mul_point, mul_direction, "Mat4");
+            float_mul_case!(s, &cfg, i, f32, Rows3, 3, Vec2, mul_point_2d, mul_direction_2d, "Mat3");
+            float_mul_case!(s, &cfg, i, f32, Cols3, 3, Vec2, mul_point_2d, mul_direction_2d, "Mat3");
+            float_mul_case!(s, &cfg, i, f64, Rows3, 3, Vec2, mul_point_2d, mul_direction_2d, "Mat3");
+            float_mul_case!(s, &cfg, i, f64, Cols3, 3, Vec2, mul_point_2d, mul_direction_2d, "Mat3");
+        });
         rep.push(s);
     }
     let nlong = cfg.n(6_000, 600_000);
